@@ -167,6 +167,9 @@ def run_cases(binary, cases, timeout=600, env=None, per_case_timeout=None, tag="
         if start >= len(cases):
             break
         # the process ended before finishing all cases
+        if rc < 0 and err != "timeout":
+            # killed from outside (OOM killer, an operator): a resource verdict, never a violation
+            raise Undecided("driver killed by signal %d after %d finished cases" % (-rc, start))
         if begun is None:
             raise Undecided("driver ended (rc=%s) without beginning a case: %s" % (rc, err))
         results[begun] = {"died": rc, "stderr": err, "stdout": out_tail}
